@@ -2,6 +2,7 @@ package ast
 
 import (
 	"bytes"
+	"sort"
 
 	fail "github.com/textwire/textwire/v2/fail"
 	token "github.com/textwire/textwire/v2/token"
@@ -137,7 +138,16 @@ func (p *Program) HasUseStmt() bool {
 }
 
 func (p *Program) checkUndefinedInsert(inserts map[string]*InsertStmt) *fail.Error {
+	names := make([]string, 0, len(inserts))
+
 	for name := range inserts {
+		names = append(names, name)
+	}
+
+	// report the same insert on every run
+	sort.Strings(names)
+
+	for _, name := range names {
 		if _, ok := p.Reserves[name]; ok {
 			continue
 		}
